@@ -437,6 +437,7 @@ def _aggregate(agg, s):
     agg["fault_fired"].update(s["fault_fired"])
     agg["nontrivial"].update(s["nontrivial"])
     agg["schedules"].update(s["schedules"])
+    agg["op_prefixes"].add(s.get("interleaving"))
     agg["logical_time"] += s["logical_time"]
     agg["line_events"] += s["line_events"]
     agg["wall_worlds"] += s.get("wall", 0)
@@ -517,6 +518,7 @@ def write_evidence(prop, tier, root, agg, violations_out, known_lines, wall, pla
         "cross_interpreter_references": int(agg["stats"].get("xref", 0)),
         "faults_fired": {k: v for k, v in sorted(agg["fault_fired"].items())},
         "distinct_seed_atom_schedules": len(agg["schedules"]),
+        "distinct_operation_interleavings": len(agg["op_prefixes"]),
         "probes": dict(sorted(agg["probes"].items())),
         "discarded_by_precondition": dict(agg["discarded"]),
         "known_findings_replayed": known_lines,
